@@ -118,7 +118,7 @@ StripTags(h, n, fuel) ==
         (IF IsCore(h[n].t) THEN h ELSE [h EXCEPT ![n].t = Implicit(h[n].v)])
     ELSE LET h1 == [h EXCEPT ![n].t = IF h[n].k = "q" THEN "seq" ELSE "map"] IN
          StripKids(h1, h1[n].c, 1, fuel - 1)
-Fuel(h) == 2 * Len(h) + 2
+Fuel(h) == 2 * Len(h) + 2 * Len(Mod.classes) + 8
 
 (* ------------------------------------------------------------------------ *)
 (* recognition (yatiml/recognizer.py), threading the graph because the      *)
